@@ -16,6 +16,7 @@ import (
 	"math/rand"
 	"os"
 	"reflect"
+	"regexp"
 	"strings"
 
 	"github.com/antonmedv/expr"
@@ -444,7 +445,7 @@ func (g *c03gen) nestedTop(depth int) string {
 // the error paths of the checker — which error is reported first, where, and how the tree is annotated.
 func (g *c03gen) untyped(d int) string {
 	atoms := []string{"I", "I8", "U64", "F64", "F32", "B", "Str", "Any", "Ints", "Strs", "Anys", "Arr", "MSI", "MII", "St", "PSt", "Sts", "My",
-		"Fi", "Mi", "Amb", "PPSt", "PS", "PA", "Sg", "Zs", "Nope", "1", "2", "0", "1.5", "\"a\"", "\"k\"", "true", "false", "nil"}
+		"Fi", "Mi", "Amb", "PPSt", "PS", "PA", "PI", "PF64", "PStr", "Sg", "Zs", "Nope", "1", "2", "0", "1.5", "\"a\"", "\"k\"", "true", "false", "nil"}
 	if len(g.closure) > 0 {
 		atoms = append(atoms, "#", "#", "#")
 	}
@@ -728,6 +729,9 @@ func runC03(c *Ctx) {
 		ex  int
 	}{{"nil", 1}, {"Fs(1)", 0}, {"filter(Ints, {# > 1})", 0}, {"map(Ints, {# + 1})", 0}, {"MSI[1]", 0}, {"Ints[\"a\"]", 0},
 		{"My == 1", 0}, {"map(Ints, {nil})", 0}, {"Ff(+U64)", 0}, {"Fi(F64 + 1)", 0}, {"Arr[:]", 0}, {"len(Arr[1:2])", 0}, {"{(1): 2}", 0}, {"MSI[:]", 0}, {"F32 in MII", 0}, {"Any?.x", 1}, {"1 + 2", 2}, {"I8 + 1", 2}, {"F32 * 2", 3}, {"I", 3}, {"Str", 2}, {"B", 1}, {"I", 1},
+		{"I == PI", 0}, {"PI == I", 0}, {"PI != 1", 0}, {"PStr == Str", 0}, {"Str != PStr", 0}, {"PI == PI", 0}, {"PI == nil", 0}, {"NPI == nil", 0}, {"PI == PF64", 0},
+		{"PI < 1", 0}, {"I >= PI", 0}, {"PStr < \"b\"", 0}, {"PI in [1, 2, 3]", 0}, {"PI in Ints", 0}, {"PI + 1", 0}, {"1 + PI", 0}, {"PF64 * 2", 0}, {"-PI", 0}, {"PI % 2", 0}, {"PI ** 2", 0},
+		{"PStr + \"a\"", 0}, {"PStr contains \"s\"", 0}, {"PStr matches \"s\"", 0}, {"len(PStr)", 0}, {"PI..3", 0}, {"Ints[PI]", 0}, {"PI > 0 ? 1 : 2", 0}, {"NPI + 1", 0}, {"Fi(PI)", 0}, {"PStr[0:1]", 0}, {"not (PI == 1)", 0},
 		{"PFi(1)", 0}, {"PFi(I) + 1", 0}, {"PFi(\"a\")", 0}, {"PFi()", 0}, {"Nf(1, 2)", 0}, {"Nf()", 0}, {"Fe(1)", 0}, {"Fe()", 0}, {"Fg(Sg)", 0}, {"Fg(Zs, Sg)", 0}, {"Fg()", 0}, {"Fx(1, \"a\")", 0}, {"Fx()", 0}, {"Fy(1)", 0}, {"Mx(1, 2)", 0}, {"Mx()", 0}, {"Fn()", 0}, {"F2()", 0}, {"Fx(Nope)", 0},
 		{"len(PS)", 0}, {"PS[0]", 0}, {"PS[0:1]", 0}, {"1 in PS", 0}, {"all(PS, {# > 0})", 0}, {"filter(PS, {# > 0})", 0}, {"map(PS, {# + 1})", 0}, {"count(PS, {true})", 0},
 		{"len(PA)", 0}, {"PA[0]", 0}, {"PA[0:1]", 0}, {"1 in PA", 0}, {"any(PA, {# > 0})", 0}, {"none(PA, {# > 9})", 0}, {"one(PA, {# == 0})", 0}, {"PS[0] + PA[1]", 0}, {"len(PS[1:]) + len(PA[:2])", 0},
@@ -839,6 +843,7 @@ func runC03(c *Ctx) {
 		c03Oracle(c, cs)
 	}
 	c03IfaceArith(c)
+	c03PtrScalarEq(c)
 	c03Synthetic(c, envs[0])
 	for _, k := range []string{"check:accepted", "check:rejected", "oracle:static-runs", "oracle:mutants-rejected", "nested:well-typed", "nested:mutants",
 		"nonstrict:fixed", "nonstrict:random", "nonstrict:accepted", "nonstrict:typed-runs"} {
@@ -992,6 +997,22 @@ func c03CallsNonBuiltin(src string) bool {
 		return true
 	}
 	return false
+}
+
+// c03PtrScalarEq: the checker accepts `PI == I` because it dereferences the operand types (isComparable);
+// the VM compares the pointer with the number, so the answer is false even when *PI equals I.
+func c03PtrScalarEq(c *Ctx) {
+	env := popIface(EnvScalars{}).(EnvScalars)
+	i, str := env.I, env.Str
+	env.PI, env.PStr = &i, &str
+	for _, src := range []string{"PI == I", "I == PI", "PStr == Str", "PI in [I]", "not (PI != I)"} {
+		rv := compileRunOpts(src, env, []expr.Option{expr.Env(env), expr.Optimize(false)})
+		c.R.Case("ptr-scalar-eq|"+src, true)
+		if rv.ran && rv.out != true {
+			violateKeyed16(c, Violation{What: "comparing a pointer-to-scalar member with an equal scalar is accepted (the checker dereferences the operand types) and answers false (the VM compares the pointer itself)",
+				Key: "c03:static-program-type-error:pointer-to-scalar-operand", Input: c03Input{"EnvScalars/PI=&I", src, "none", ""}, Expect: "true", Got: fmt.Sprint(rv.out)})
+		}
+	}
 }
 
 // c03Synthetic: trees the parser never builds (a Patch visitor or the optimizer can): builtins with a
@@ -1241,8 +1262,14 @@ func c03DynKey(src string) string {
 	return "other"
 }
 
+// a pointer to a scalar in an operator's / conversion's failure message: `*int + int`, `float64(*int)`,
+// `interface {} is *string, not string`
+var c03PtrScalarRe = regexp.MustCompile(`\*(u?int(8|16|32|64)?|float(32|64)|string|bool)\b`)
+
 func c03TypeErrKey(src, rerr string) string {
 	switch {
+	case c03PtrScalarRe.MatchString(rerr):
+		return "pointer-to-scalar-operand"
 	case strings.Contains(rerr, "interface conversion") && strings.Contains(rerr, "not string") && strings.Contains(src, "{"):
 		return "map-literal-key"
 	case strings.Contains(rerr, "cannot slice"):
@@ -1257,6 +1284,7 @@ func c03TypeErrKey(src, rerr string) string {
 		return "slice-of-array"
 	case strings.Contains(rerr, "invalid argument for len (type *"):
 		return "len-of-pointer-to-collection"
+
 	}
 	// not one of the known classes: the raw message is part of the key, so that a sweep shows what it is
 	return "other:" + firstLine16(rerr)
